@@ -495,6 +495,15 @@ pub fn c09(tier: Tier) -> i32 {
         }
         c09_check_program(&rep, c, &format!("`{}`", e.text), std::slice::from_ref(&e.ast), &[e.text.as_str()], &dfa, &|p| g.is_match(p));
     });
+    // owned globs that answer differently from the borrowed one
+    for_each_glob(&rep, &SpaceOpts { shape: opts.shape.min(4), reduced: 0, position: 0, position_full: 0, subst_single: 0, subst_pairs: 0, ..opts.clone() }, &|e, g, c| {
+        let owned = g.clone().into_owned();
+        if owned.is_exhaustive() == When::Always && g.is_exhaustive() != When::Always {
+            bump(c, "owned_answers_differ", 1);
+            let Ok(dfa) = model::dfa_of_glob(&owned) else { return };
+            c09_check_program(&rep, c, &format!("`{}`.into_owned()", e.text), std::slice::from_ref(&e.ast), &[e.text.as_str()], &dfa, &|p| owned.is_match(p));
+        }
+    });
     for_each_any(&rep, tier, &|combo, any, c| {
         let w = any.is_exhaustive();
         bump(c, match w {
@@ -699,6 +708,13 @@ pub fn c10(tier: Tier) -> i32 {
             rep.sample(json!({"expression": e.text, "depth": format!("{:?}", d0), "has_root": when_str(g.has_root())}));
         }
         c10_check_program(&rep, c, &format!("`{}`", e.text), &[e.text.as_str()], &dfa, d0, g.has_root(), nested_tree(&e.ast, false), has_possibly_empty_token(&e.ast), &|p| g.is_match(p));
+        // the owned pattern is a pattern too: if it answers differently, it is checked as well
+        let owned = g.clone().into_owned();
+        let d1 = owned.depth();
+        if d1 != d0 {
+            bump(c, "owned_answers_differ", 1);
+            c10_check_program(&rep, c, &format!("`{}`.into_owned()", e.text), &[e.text.as_str()], &dfa, d1, owned.has_root(), nested_tree(&e.ast, false), has_possibly_empty_token(&e.ast), &|p| owned.is_match(p));
+        }
     });
     for_each_any(&rep, tier, &|combo, any, c| {
         let Ok(dfa) = model::dfa_of_any(any) else { return };
